@@ -60,7 +60,12 @@ def apply_op(m, op):
     if k == "cleanup_uploads":
         return m.cleanup_uploads(op[1])
     if k == "needs":
+        if len(op) > 3:
+            return m.needs_uploading(op[1], op[2], max_uploads_ago=op[3])
         return m.needs_uploading(op[1], op[2])
+    if k == "upinfo":
+        u = m.get_upload_info(op[1], op[2])
+        return None if u is None else [u.description, u.size, u.bytes_ago, u.uploads_ago]
     if k == "count":
         _, space, b, e = op
         return m.count(im.IDSpace(*SPACES[space]), im.IDSubspace(b, e))
@@ -87,6 +92,8 @@ def _prefill(dbfile, c):
     m = im.IDManager(dbfile, max_ids_per_subspace=c.get("max_ids", 1024))
     for j, (i, desc) in enumerate(c.get("prefill", [])):
         m.set_id(i, desc, atime=S.BASE - S._dt.timedelta(seconds=1000 - j))
+    for j, (i, term, size) in enumerate(c.get("preupload", [])):
+        m.mark_uploaded(i, term, size=size, upload_time=S.BASE - S._dt.timedelta(seconds=500 - j))
     m.close()
 
 
@@ -114,7 +121,7 @@ def sequential_outcomes(c):
     """Outcomes (results per process, final tables) of EVERY one-at-a-time ordering of the same
     requests (program order kept per process), obtained by running the real code sequentially
     with the same per-operation clock values and random tapes."""
-    key = json.dumps([c["programs"], c.get("prefill"), c.get("max_ids"), c.get("seed", 0)])
+    key = json.dumps([c["programs"], c.get("prefill"), c.get("preupload"), c.get("max_ids"), c.get("seed", 0)])
     if key in _SEQ_CACHE:
         return _SEQ_CACHE[key]
     progs = c["programs"]
@@ -346,10 +353,18 @@ def cases(ctx: Ctx):
         ([["get", "X", "8bit", 5, 7]], [["get", "X", "8bit", 5, 7]], []),
         ([["get", "X", "8bit", 5, 7]], [["get", "Y", "8bit", 5, 7]], [[5, "X"], [6, "Z"]]),
         ([["set", 5, "A"]], [["set", 5, "B"]], []),
+        # multi-statement reads against a concurrent writer (snapshot consistency of the answers)
+        ([["needs", 5, "T", 1]], [["mark", 5, "T", 3]], [[5, "A"]], [[5, "T", 2]]),
+        ([["needs", 5, "T", 1]], [["set", 5, "B"], ["mark", 5, "T", 3]], [[5, "A"]], [[5, "T", 2]]),
+        ([["upinfo", 5, "T"]], [["mark", 5, "T", 3], ["mark", 6, "T", 4]], [[5, "A"], [6, "B"]], [[5, "T", 2]]),
         ([["cleanup", "8bit", 5, 8, 1]], [["cleanup", "8bit", 5, 8, 2]], [[5, "A"], [6, "B"], [7, "C"]]),
     ]
-    for a, b, pre in pairs:
-        yield dict(k="explore", programs=[a, b], prefill=pre, limit=120)
+    for entry in pairs:
+        a, b, pre = entry[:3]
+        c = dict(k="explore", programs=[a, b], prefill=pre, limit=120)
+        if len(entry) > 3:
+            c["preupload"] = entry[3]
+        yield c
     yield dict(k="explore", programs=[[["mark", 5, "T", 7]], [["mark", 5, "T", 9]], [["set", 5, "B"]]], prefill=[[5, "A"]], limit=200)
     # exhaustive exploration of small programs
     yield dict(k="explore", programs=[[["get", "X", "32bit", 0, 256]], [["get", "X", "32bit", 0, 256]]], limit=400)
